@@ -21,6 +21,21 @@
 //!   5 mtu rsv (quota wi wo)*  BURST   -> status nseg len* sum, then balance
 //!                                     status 0 handed to IO | 1 nothing (signals) | 2 path deactivated
 //!   6                         POLLWAIT  one poll of tx_waker.wait_for(CREDIT) -> ready wakes, then balance
+//!   7 mtu rsv (quota w0 f0 w1 f1 w2 f2 w3 f3)*
+//!                             BURSTP  like BURST with the four packet requests of load_spaces (Initial, 0-RTT,
+//!                                     Handshake, 1-RTT): wK bytes wanted, fK != 0 = the packet is in flight
+//!                                     (`Constraints::commit(len, in_flight)`)
+//!   8 ka na kb nb sched*      RACE    two REAL method calls (k: 0 on_rcvd(n), 1 balance, 2 on_sent(n), 3 grant,
+//!                                     4 abort, else nothing) on two threads under a deterministic schedule at the
+//!                                     granularity of the atomic operations on `credit` / `state` (the
+//!                                     cfg(gmquic_verif) instrumented atomics of aa.rs announce each one): bit 0 = A
+//!                                     performs its next atomic operation, 1 = B; a finished thread hands over;
+//!                                     after the schedule A first.  -> stepsA stepsB resA resB, then balance
+//!                                     (res: the balance() result as kind value, `3 0` for the unit methods)
+//!   9 narr amt                STRESS  SUPPORT ONLY (real parallelism, bounded): one thread delivers narr arrivals of
+//!                                     amt bytes while a disciplined sender (sends exactly what balance() grants and
+//!                                     reports it at once) runs on another, then drains -> bytes sent, then balance.
+//!                                     Whatever the interleaving this is credit-before + 3*narr*amt on correct code.
 use std::{
     future::Future,
     pin::Pin,
@@ -33,7 +48,7 @@ use std::{
 
 use hproto::{Obs, Op};
 use qbase::net::tx::{ArcSendWaker, Signals};
-use qconnection::path::{AntiAmplifier, Constraints};
+use qconnection::path::{AntiAmplifier, Constraints, verif_atomic};
 
 struct CountWaker(AtomicU64);
 impl Wake for CountWaker {
@@ -73,9 +88,12 @@ enum SegErr {
     Deactivated,
 }
 
-/// one segment = `Burst::load_spaces` on a buffer of `buf_len` bytes (two packet requests: the Initial
-/// space wants `wi` bytes, the remaining spaces together want `wo` bytes)
-fn load_segment(st: &St, buf_len: usize, quota: usize, wi: usize, wo: usize) -> Result<usize, SegErr> {
+/// one packet request: bytes wanted, in flight
+type Pkt = (usize, bool);
+
+/// one segment = `Burst::load_spaces` on a buffer of `buf_len` bytes: the Initial space's request first, then
+/// the requests of the other spaces in order, all through ONE `Constraints`
+fn load_segment(st: &St, buf_len: usize, quota: usize, ini: Pkt, rest: &[Pkt]) -> Result<usize, SegErr> {
     let mut storage = vec![0u8; buf_len];
     let mut buffer: &mut [u8] = &mut storage[..];
     let origin = buffer.len();
@@ -87,18 +105,20 @@ fn load_segment(st: &St, buf_len: usize, quota: usize, wi: usize, wo: usize) -> 
     };
     let mut cons = Constraints::new(credit, quota);
     // PacketsAssembler::assemble for one packet request: constrain, (new_packet needs `minpkt`), commit
-    let mut assemble = |buffer: &mut &mut [u8], want: usize| {
+    let mut assemble = |buffer: &mut &mut [u8], (want, in_flight): Pkt| {
         let room = cons.constrain(&mut buffer[..]).len();
         let sent = if want > 0 && room >= st.minpkt { want.min(room) } else { 0 };
         if sent > 0 {
-            cons.commit(sent, true);
+            cons.commit(sent, in_flight);
             let tmp = std::mem::take(buffer);
             *buffer = &mut tmp[sent..];
         }
     };
-    assemble(&mut buffer, wi); // Initial space
+    assemble(&mut buffer, ini); // Initial space
     let loaded_initial = buffer.len() != origin;
-    assemble(&mut buffer, wo); // 0-RTT / Handshake / 1-RTT spaces, taken together
+    for &p in rest {
+        assemble(&mut buffer, p); // 0-RTT / Handshake / 1-RTT spaces
+    }
     if loaded_initial {
         // buffer.put_bytes(0, buffer.remaining_mut()); return Ok((origin, ..))
         return Ok(origin);
@@ -107,12 +127,12 @@ fn load_segment(st: &St, buf_len: usize, quota: usize, wi: usize, wo: usize) -> 
     if sent_bytes > 0 { Ok(sent_bytes) } else { Err(SegErr::Signals) }
 }
 
-fn burst(st: &St, mtu: usize, rsv: usize, segs: &[(usize, usize, usize)], o: &mut Obs) {
+fn burst(st: &St, mtu: usize, rsv: usize, segs: &[(usize, Pkt, Vec<Pkt>)], o: &mut Obs) {
     // Burst::burst: map over the segments + try_fold
     let mut lens: Vec<usize> = Vec::new();
     let mut status = 0i64;
-    for &(quota, wi, wo) in segs {
-        match load_segment(st, mtu - rsv, quota, wi, wo) {
+    for (quota, ini, rest) in segs {
+        match load_segment(st, mtu - rsv, *quota, *ini, rest) {
             Err(SegErr::Signals) if lens.is_empty() => {
                 status = 1;
                 break;
@@ -148,6 +168,133 @@ fn burst(st: &St, mtu: usize, rsv: usize, segs: &[(usize, usize, usize)], o: &mu
     o.push_usize(sum);
 }
 
+// ------------------------------------------------------------------------------------------------
+// RACE: two real calls, two threads, one atomic operation at a time
+// ------------------------------------------------------------------------------------------------
+
+enum Msg {
+    /// the thread is about to perform an atomic operation and waits for its turn
+    Yield,
+    /// the call returned (kind, value)
+    Done(i64, u64),
+}
+
+fn call(aa: &AntiAmplifier, kind: u64, n: usize) -> (i64, u64) {
+    match kind {
+        0 => aa.on_rcvd(n),
+        1 => {
+            return match aa.balance() {
+                Err(_) => (0, 0),
+                Ok(Some(v)) => (1, v as u64),
+                Ok(None) => (2, 0),
+            };
+        }
+        2 => aa.on_sent(n),
+        3 => aa.grant(),
+        4 => aa.abort(),
+        _ => {}
+    }
+    (3, 0)
+}
+
+fn race(st: &St, calls: [(u64, usize); 2], sched: &[bool], o: &mut Obs) {
+    use std::sync::mpsc::channel;
+    let aa = &st.aa;
+    let mut steps = [0u64; 2];
+    let mut done: [Option<(i64, u64)>; 2] = [None, None];
+    std::thread::scope(|s| {
+        let mut go_tx = Vec::new();
+        let mut msg_rx = Vec::new();
+        for &(kind, n) in calls.iter() {
+            let (gtx, grx) = channel::<()>();
+            let (mtx, mrx) = channel::<Msg>();
+            go_tx.push(gtx);
+            msg_rx.push(mrx);
+            s.spawn(move || {
+                let mtx2 = mtx.clone();
+                verif_atomic::set_before_atomic(Some(Box::new(move || {
+                    let _ = mtx2.send(Msg::Yield);
+                    let _ = grx.recv();
+                })));
+                let r = std::panic::catch_unwind(std::panic::AssertUnwindSafe(|| call(aa, kind, n)));
+                verif_atomic::set_before_atomic(None);
+                let (k, v) = r.unwrap_or((-7, 0));
+                let _ = mtx.send(Msg::Done(k, v));
+            });
+        }
+        let mut wait = |t: usize, done: &mut [Option<(i64, u64)>; 2]| match msg_rx[t].recv() {
+            Ok(Msg::Yield) => {}
+            Ok(Msg::Done(k, v)) => done[t] = Some((k, v)),
+            Err(_) => done[t] = Some((-7, 0)),
+        };
+        // both threads run up to their first atomic operation (nothing shared is touched before it)
+        wait(0, &mut done);
+        wait(1, &mut done);
+        let mut i = 0;
+        while done[0].is_none() || done[1].is_none() {
+            let mut t = if i < sched.len() { sched[i] as usize } else { 0 };
+            i += 1;
+            if done[t].is_some() {
+                t = 1 - t;
+            }
+            steps[t] += 1;
+            let _ = go_tx[t].send(());
+            wait(t, &mut done);
+        }
+    });
+    o.push(steps[0]).push(steps[1]);
+    for d in done {
+        let (k, v) = d.unwrap_or((-7, 0));
+        o.push(k).push(v);
+    }
+}
+
+// ------------------------------------------------------------------------------------------------
+// STRESS (support only): real parallelism, bounded
+// ------------------------------------------------------------------------------------------------
+
+fn stress(st: &St, narr: usize, amt: usize, o: &mut Obs) {
+    use std::sync::atomic::AtomicBool;
+    let narr = narr.min(200_000);
+    let amt = amt.min(65_535);
+    let aa = &st.aa;
+    let mut sent: u64 = 0;
+    if matches!(aa.balance(), Ok(Some(usize::MAX)) | Ok(None)) {
+        // granted / aborted: nothing is counted
+        o.push(0u8);
+        return;
+    }
+    let rx_done = AtomicBool::new(false);
+    let start = std::sync::Barrier::new(2);
+    std::thread::scope(|s| {
+        s.spawn(|| {
+            start.wait();
+            for _ in 0..narr {
+                aa.on_rcvd(amt);
+            }
+            rx_done.store(true, Ordering::SeqCst);
+        });
+        let sender = s.spawn(|| {
+            let mut sent = 0u64;
+            start.wait();
+            loop {
+                let finished = rx_done.load(Ordering::SeqCst);
+                match aa.balance() {
+                    Ok(Some(c)) if c != usize::MAX => {
+                        sent += c as u64;
+                        aa.on_sent(c);
+                    }
+                    Err(_) if !finished => std::hint::spin_loop(),
+                    _ => break,
+                }
+            }
+            sent
+        });
+        sent = sender.join().unwrap_or(0);
+    });
+    o.push(sent);
+}
+
 fn step(st: &mut St, op: &Op, _i: usize) -> Obs {
     let mut o = Obs::new();
     match op.tag {
@@ -162,11 +309,29 @@ fn step(st: &mut St, op: &Op, _i: usize) -> Obs {
             let mut segs = Vec::new();
             let mut i = 2;
             while i + 2 < op.args.len() {
-                segs.push((op.u(i) as usize, op.u(i + 1) as usize, op.u(i + 2) as usize));
+                segs.push((op.u(i) as usize, (op.u(i + 1) as usize, true), vec![(op.u(i + 2) as usize, true)]));
                 i += 3;
             }
             burst(st, mtu, rsv, &segs, &mut o);
         }
+        7 => {
+            let mtu = op.u(0) as usize;
+            let rsv = op.u(1) as usize;
+            let mut segs = Vec::new();
+            let mut i = 2;
+            while i + 8 < op.args.len() {
+                let pk = |k: usize| (op.u(i + 1 + 2 * k) as usize, op.u(i + 2 + 2 * k) != 0);
+                segs.push((op.u(i) as usize, pk(0), vec![pk(1), pk(2), pk(3)]));
+                i += 9;
+            }
+            burst(st, mtu, rsv, &segs, &mut o);
+        }
+        8 => {
+            let calls = [(op.u(0), op.u(1) as usize), (op.u(2), op.u(3) as usize)];
+            let sched: Vec<bool> = op.args[4..].iter().map(|v| *v != 0).collect();
+            race(st, calls, &sched, &mut o);
+        }
+        9 => stress(st, op.u(0) as usize, op.u(1) as usize, &mut o),
         6 => {
             let mut cx = Context::from_waker(&st.waker);
             let tx = st.tx.clone();
